@@ -11,7 +11,7 @@ from . import wl_groups as wl
 PROPERTY = "C21"
 LEVEL = "exploration"
 SCENARIOS = {"nofault": 2, "wire-faults": 3, "wkc-faults": 2}
-TIERS = {"quick": {"runs": 2400, "chunk": 10}, "thorough": {"runs": 80000, "chunk": 50}}
+TIERS = {"quick": {"runs": 2400, "chunk": 10}, "thorough": {"runs": 50000000, "wall_s": 600, "chunk": 50, "recheck": 16}}
 RULE = ("one run = FastEtherCat + one real FastSyncGroup with a tape-generated layout (1-4 "
         "terminals, FMMU and direct writers/readers, 1-3 generated devices) on the simulated "
         "bus; the real dispatcher and group byte code run in the eBPF interpreter on every "
